@@ -74,8 +74,8 @@ class Hist:
     def req(self, n, c, sub, ack=0):
         self.recv(f"{n};{c};2;{ack};{sub};")
 
-    def internal(self, n, sub, pay="", child=255):
-        self.recv(f"{n};{child};3;0;{sub};{pay}")
+    def internal(self, n, sub, pay="", child=255, ack=0):
+        self.recv(f"{n};{child};3;{ack};{sub};{pay}")
 
     def battery(self, n):
         self.internal(n, 0, self.r.choice(["0", "1", "50", "77", "99", "100", " 42"]))
@@ -89,8 +89,8 @@ class Hist:
     def heartbeat(self, n):
         self.internal(n, 22, str(self.r.choice([1, 7, 500, 65535, 2 ** 40, -3])))
 
-    def idreq(self, frm=255, child=255):
-        self.internal(frm, 3, "", child)
+    def idreq(self, frm=255, child=255, ack=0):
+        self.internal(frm, 3, "", child, ack)
 
     def wake(self, n):
         """the message after which the node is treated as smart sleeping (needs >= 2.0)."""
@@ -220,14 +220,14 @@ def c05_directed(rng, cfg):
         elif k < 0.30:
             if r.random() < 0.5:
                 h.ops.append(("metric", r.random() < 0.5))
-            h.internal(r.choice([n, 255, 9]), 6, r.choice(["0", "M", "I"]))
+            h.internal(r.choice([n, 255, 9]), 6, r.choice(["0", "M", "I"]), ack=r.choice([0, 0, 1]))
         elif k < 0.40:
             h.ops.append(("clock", r.choice([0, 1, 1700000000, 2 ** 31 - 1, 2 ** 33, r.randrange(10 ** 10)])))
-            h.internal(r.choice([n, 9]), 1, r.choice(["", "5"]))
+            h.internal(r.choice([n, 9]), 1, r.choice(["", "5"]), ack=r.choice([0, 0, 1]))
         elif k < 0.48:
-            h.idreq(r.choice([255, 255, n]))
+            h.idreq(r.choice([255, 255, n]), ack=r.choice([0, 0, 1]))
         elif k < 0.54:
-            h.internal(0, 14, "Gateway startup complete")
+            h.internal(0, 14, "Gateway startup complete", ack=r.choice([0, 0, 1]))
         elif k < 0.68:                      # every handler that needs a known node / child, from unknown ones
             u = r.choice([x for x in (4, 8, 150, 254) if x not in h.known])
             r.choice([lambda: h.child(u, 1), lambda: h.set(u, 1, 0, "1"), lambda: h.req(u, 1, 0), lambda: h.battery(u),
@@ -363,15 +363,21 @@ def c06_directed(rng, cfg):
 
 
 def sprinkle_persistence(rng, ops, p_save=0.06, p_restart=0.03):
-    """("save",) / ("restart",) at random positions of an existing history."""
+    """("save",) / ("restart",) at random positions of an existing history.  The harness clock is re-issued after a
+    restart (gwrun.Impl re-initialises it, the model keeps it: an artefact of the harness, not of the library)."""
     out = []
+    clock = None
     for o in ops:
         out.append(o)
+        if o[0] == "clock":
+            clock = o
         x = rng.random()
         if x < p_save:
             out.append(("save",))
         elif x < p_save + p_restart:
             out.append(("restart",))
+            if clock:
+                out.append(clock)
     return out
 
 
